@@ -561,6 +561,17 @@ int main(int argc, char **argv) {
     vc::GenOpts o = optsFor(k);
     c = vc::genCircuit(g, o);
     p = vd::genParams(g, k % 2 == 1);
+    // one case in eight lives far from the origin (|offset| up to 2^26, beyond the 2^24 integers a binary32 holds):
+    // the property is about every circuit of the C01 domain, and wirelength bookkeeping must not depend on where the die is
+    if (k % 8 == 5) {
+      long long dx = g.range(-(1ll << 26), 1ll << 26), dy = g.range(-(1ll << 26), 1ll << 26);
+      std::vector<int> x = c.cellX(), y = c.cellY();
+      for (auto &v : x) v += dx;
+      for (auto &v : y) v += dy;
+      std::vector<Row> rows = c.rows();
+      for (auto &r : rows) { r.minX += dx; r.maxX += dx; r.minY += dy; r.maxY += dy; }
+      c.setCellX(x); c.setCellY(y); c.setRows(rows);
+    }
   };
   auto wantDirect = [&](long long k) { return !a.thorough() || ((k >> 1) & 1) == 0; };
   if (a.only >= 0) {
